@@ -179,8 +179,29 @@ type built struct {
 	vars []int64
 }
 
-// runCase evaluates one program on the interpreter.
+// runCase evaluates one program on the interpreter. A run that does not finish is repeated once (fresh
+// scope, fresh mutexes, longer watchdog) so that a slow machine is not mistaken for a program parked on a mutex.
 func runCase(ctx *common.Ctx, id int64, dir string, b built) (term string, desc caseDesc, ok bool) {
+	var hung bool
+	if term, desc, ok, hung = runCaseOnce(ctx, id, dir, b, 1500*time.Millisecond); hung {
+		ctx.Hist("watchdog-retry")
+		term, desc, ok, _ = runCaseOnce(ctx, id+5000000, dir, b, 5*time.Second)
+	}
+	return
+}
+
+func runCaseOnce(ctx *common.Ctx, id int64, dir string, b built, limit time.Duration) (term string, desc caseDesc, ok, hung bool) {
+	// a directory of its own for every case: a goroutine parked for ever by an earlier case (hang) keeps
+	// its streams open, they must not be counted here
+	dir = filepath.Join(dir, fmt.Sprint(id))
+	if err := os.Mkdir(dir, 0o755); err != nil {
+		panic(err)
+	}
+	for i := 0; i < 3; i++ {
+		if err := os.WriteFile(filepath.Join(dir, fmt.Sprintf("f%d", i)), []byte("x\n"), 0o644); err != nil {
+			panic(err)
+		}
+	}
 	nm := &namer{fnPrefix: fmt.Sprintf("f%d", id), dir: dir}
 	scope := slip.NewScope()
 	rec := &recorder{dir: dir}
@@ -208,7 +229,7 @@ func runCase(ctx *common.Ctx, id int64, dir string, b built) (term string, desc 
 		ctx.Violate("defun of a generated function failed", src.String(), def.Err+": "+def.Msg, nil)
 		return
 	}
-	out := common.EvalTimeout(scope, main, 1500*time.Millisecond)
+	out := common.EvalTimeout(scope, main, limit)
 	rec.mu.Lock()
 	evs := append([]obsEv(nil), rec.evs...)
 	rec.mu.Unlock()
@@ -221,6 +242,7 @@ func runCase(ctx *common.Ctx, id int64, dir string, b built) (term string, desc 
 	switch {
 	case out.Err == "timeout":
 		gres = "MHang"
+		hung = true
 		// the goroutine is parked on its mutex for ever; what it holds is what the model says a hang holds
 	case out.Err != "":
 		if common.Fault(out.Msg) || out.Err == "go-panic" {
@@ -258,7 +280,7 @@ func runCase(ctx *common.Ctx, id int64, dir string, b built) (term string, desc 
 		desc.Result = gres
 	}
 	desc.Final = fmt.Sprintf("locks=%d files=%d", fl, ff)
-	return term, desc, true
+	return term, desc, true, hung
 }
 
 func Run(ctx *common.Ctx) {
@@ -268,11 +290,6 @@ func Run(ctx *common.Ctx) {
 		panic(err)
 	}
 	defer os.RemoveAll(dir)
-	for i := 0; i < 3; i++ {
-		if err = os.WriteFile(filepath.Join(dir, fmt.Sprintf("f%d", i)), []byte("x\n"), 0o644); err != nil {
-			panic(err)
-		}
-	}
 	nrandom := 1500
 	if ctx.Thorough() {
 		nrandom = 20000
@@ -331,6 +348,14 @@ func Run(ctx *common.Ctx) {
 				add(b, "sys2 "+k1+" "+k2+" "+ex)
 			}
 		}
+	}
+	// one program that parks itself on a mutex it already holds: the model says Hang, holding m0, file 1 open
+	{
+		g := &gen{rng: ctx.Rng}
+		main := &Form{K: "WithMutex", N: 0, A: []*Form{g.tr(), {K: "WithFile", N: 1, A: []*Form{
+			{K: "UnwindProtect", Z: 1, C: &Form{K: "WithMutex", N: 0, A: []*Form{g.tr()}}, A: []*Form{g.tr()}}}}, g.tr()}}
+		ctx.Hist("hang")
+		add(built{g: g, main: main, vars: []int64{0, 0}}, "relock of a held mutex")
 	}
 	// (2) random nestings, depth 1..5; half of them steered towards places that deliver the exit
 	for i := 0; i < nrandom; i++ {
